@@ -44,7 +44,14 @@ pub fn protos<F: Float>(q: &Array2<F>) -> Vec<Array2<F>> {
 pub fn queries<F: Float>(train: &Array2<f64>, n: usize, seed: u64, counts: bool) -> Array2<F> {
     let (m, p) = train.dim();
     let mut g = Lcg(seed);
+    // rows 2..=16 are the 15 extreme-but-finite catalogue rows (all representable in f32)
+    let base0 = train.row(0).to_vec();
+    let ext: Vec<Vec<f64>> = (0..15).map(|k| crate::registry::extreme_pattern(k, &base0)).collect();
     Array2::from_shape_fn((n, p), |(i, j)| {
+        if (2..17).contains(&i) {
+            let v = ext[i - 2][j];
+            return F::cast(if counts { v.abs() } else { v });
+        }
         let base = train[(i % m, j)];
         let v = if counts { base + ((i / m + j) % 3) as f64 } else { base + 0.35 * (g.next() - 0.5) * (1.0 + (i / m) as f64 * 0.01) };
         F::cast(v)
@@ -55,13 +62,17 @@ pub struct LSpec<'s, F> {
     pub kind: &'static str,
     pub float: &'static str,
     pub eps: f64,
+    /// largest finite value of the arithmetic that produces the float outputs: when the operand
+    /// magnitude S of a row reaches it, an intermediate sum may overflow in one summation order and
+    /// not in another; such cells are indeterminate (counted), not violations
+    pub float_max: f64,
     pub scale: Box<dyn Fn(&[F], usize, f64) -> f64 + 's>,
 }
 
 impl<'s, F: Float> LSpec<'s, F> {
     pub fn new(kind: &'static str) -> Self {
         let f32_ = std::mem::size_of::<F>() == 4;
-        LSpec { kind, float: if f32_ { "f32" } else { "f64" }, eps: if f32_ { f32::EPSILON as f64 } else { f64::EPSILON }, scale: Box::new(|_, _, o| o.abs()) }
+        LSpec { kind, float: if f32_ { "f32" } else { "f64" }, eps: if f32_ { f32::EPSILON as f64 } else { f64::EPSILON }, float_max: if f32_ { f32::MAX as f64 } else { f64::MAX }, scale: Box::new(|_, _, o| o.abs()) }
     }
 }
 
@@ -100,7 +111,13 @@ impl<'r, 's, F: Float> LRun<'r, 's, F> {
                             self.rep.float_bit_identical += 1;
                             continue;
                         }
-                        let tol = k * self.sp.eps * (self.sp.scale)(&row_vec(self.q, i), j, *a);
+                        let sc = (self.sp.scale)(&row_vec(self.q, i), j, *a);
+                        if !(sc < self.sp.float_max) && (!a.is_finite() || !b.is_finite()) {
+                            self.rep.indeterminate += 1;
+                            self.rep.bump("float_cells_overflow_order_dependent_indeterminate", 1);
+                            continue;
+                        }
+                        let tol = k * self.sp.eps * sc;
                         let dev = (a - b).abs();
                         if dev.is_finite() && dev <= tol {
                             let r = dev / tol;
@@ -244,9 +261,14 @@ where
                         run.rep.float_bit_identical += 1;
                         true
                     } else {
-                        let tol = k * sp.eps * (sp.scale)(&row_vec(q, i), j, *a);
+                        let sc = (sp.scale)(&row_vec(q, i), j, *a);
+                        let tol = k * sp.eps * sc;
                         let dev = (a - b).abs();
-                        if dev.is_finite() && dev <= tol {
+                        if !(sc < sp.float_max) && (!a.is_finite() || !b.is_finite()) {
+                            run.rep.indeterminate += 1;
+                            run.rep.bump("float_cells_overflow_order_dependent_indeterminate", 1);
+                            true
+                        } else if dev.is_finite() && dev <= tol {
                             if dev / tol > run.rep.max_dev_in_tol_units {
                                 run.rep.max_dev_in_tol_units = dev / tol;
                             }
@@ -319,6 +341,15 @@ where
             y
         });
         run.judge(layout, "inplace_reused_target", r, &std, base_ok);
+        for (k, form) in ["inplace_poisoned_target_a", "inplace_poisoned_target_b"].iter().enumerate() {
+            let r = guarded(|| {
+                let mut y = mo.default_target(proto);
+                y.poison(k);
+                mo.predict_inplace(proto, &mut y);
+                y
+            });
+            run.judge(layout, form, r, &std, base_ok);
+        }
 
         if let Some(mv) = mv {
             let view: ArrayView2<'a, F> = proto.view();
